@@ -1,19 +1,21 @@
 (* C19 -- the hypotheses of the C-denotation theorem are met by a real program *)
 From Coq Require Import ZArith List Bool String.
-From VV Require Import Base.F64 Mep.Genome Lang.LangBase Gen.Templates Lang.LangDefs Lang.SynDefs
-  Lang.CDenote Lang.Witness.
+From VV Require Import Base.F64 Base.Values Interp.Strategy Cxx.CxxMini Gen.Prims Mep.Genome Interp.MachineDefs.
+From VV Require Import Lang.LangBase Gen.Templates Lang.LangDefs Lang.SynDefs Lang.CDenote Lang.Witness.
 Import ListNotations.
 
 Ltac leaf_ok :=
-  apply F_leaf; intros x Hx; vm_compute in Hx; inversion Hx; subst; vm_compute; reflexivity.
-Ltac op_ok c :=
-  apply (F_op _ _ _ _ _ _ c); [reflexivity|cbn; tauto|reflexivity|reflexivity|].
+  apply F_leaf; intros v Hv Hnv; vm_compute in Hv; inversion Hv; subst;
+  eexists; split; [vm_compute; reflexivity|reflexivity].
+Ltac op_ok c b :=
+  apply (F_op _ _ _ _ _ _ _ _ _ c b); [reflexivity|cbn; tauto|reflexivity|reflexivity|reflexivity|].
 
-Lemma frag_example : frag lit0 rho0 env1 t_exec.
+Lemma frag_example : frag lm0 pow0 lit0 rho0 vars0 env1 t_exec.
 Proof.
-  unfold t_exec, node4, node2, node1, leaf.
-  op_ok tc_real_ifl. constructor; [leaf_ok|]. constructor; [leaf_ok|]. constructor; [|constructor; [|constructor]].
-  - op_ok tc_real_div. constructor; [leaf_ok|]. constructor; [|constructor].
-    op_ok tc_real_sqrt. constructor; [leaf_ok|constructor].
-  - op_ok tc_real_abs. constructor; [leaf_ok|constructor].
+  unfold t_exec, lf.
+  op_ok tc_real_ifl real_ifl_body. constructor; [leaf_ok|]. constructor; [leaf_ok|].
+  constructor; [|constructor; [|constructor]].
+  - op_ok tc_real_div real_div_body. constructor; [leaf_ok|]. constructor; [|constructor].
+    op_ok tc_real_sqrt real_sqrt_body. constructor; [leaf_ok|constructor].
+  - op_ok tc_real_abs real_abs_body. constructor; [leaf_ok|constructor].
 Qed.
